@@ -170,6 +170,8 @@ def run(pid, tier, seed, t0):
                  % (pid, len(drift_idx), json.dumps(recs[drift_idx[0] - 1])[:500]))
     vlib.log("[C20] transcription of the ORIGINAL (pre-88bb6a9) sni.rs: predicts %d violating classes; this tree shows %d; "
              "%d records differ from that transcription" % (len(predicted), len(observed_bad_classes), len(diffa)))
+    import x_tlsstream
+    tls_stage = x_tlsstream.stage(pid, tier, seed, verdict)      # TlsStream.tla: the C20 clauses (T4: info published once, after success)
     code, unlisted = verdict.finish()
 
     subject = sum(1 for v in vecs if v["subject"])
@@ -182,6 +184,7 @@ def run(pid, tier, seed, t0):
     vlib.write_evidence(
         pid, tier, seed, "model_checking",
         {
+            "tls_stream_model": tls_stage,
             "states": m.distinct + cm.distinct, "transitions": (m.generated - len(vecs)) + (cm.generated - n_scn),
             "traces_validated_against_impl": nrec,
             "samples": samples,
@@ -234,6 +237,9 @@ def run(pid, tier, seed, t0):
 def replay(pid, path):
     d = vlib.outdir(pid)
     obj = json.load(open(path))
+    if isinstance(obj.get("replay"), dict) and obj["replay"].get("kind") == "tlsstream-ops":
+        import x_tlsstream
+        return x_tlsstream.replay(pid, obj)
     recs = obj["replay"]["records"] if "replay" in obj else obj["records"]
     inp = os.path.join(d, "replay-in.ndjson")
     outp = os.path.join(d, "replay-out.ndjson")
